@@ -48,6 +48,9 @@ type resetSpec struct {
 	// SlowReader: B's readers start only after this pause (the advertised window shrinks while
 	// the data waits: with a small receive buffer the sender ends up probing a closed window)
 	SlowReader time.Duration
+	// ReopenAtEOF: the next cycle opens the identifier again in the instant both readers have
+	// seen end-of-stream (both directions are reset then), without looking at internal tables
+	ReopenAtEOF bool
 }
 
 type resetObs struct {
@@ -262,6 +265,9 @@ func resetCycle(m *Sim, spec *resetSpec, cycle int) bool {
 	m.Join(readers...)
 	// both directions reset: identifiers free again, nothing buffered
 	ok = m.WaitUntil("reset-done", 120*time.Second, func() bool {
+		if spec.ReopenAtEOF && cycle+1 < spec.Cycles {
+			return true
+		}
 		for _, sid := range spec.SIDs {
 			if _, in := m.As[0].streams[sid]; in {
 				return false
@@ -404,6 +410,15 @@ func propC14(j *Job) {
 							sp := *spec
 							sp.EagerReopen, sp.MsgGap, sp.Cycles = true, 1200*time.Millisecond, 3
 							j.Explore(fmt.Sprintf("R/%s/m%d/U%v/eager", mode.Name, len(sizes), unordered), resetScenario(&sp), Budget{K: k}, nil)
+							if j.capped() {
+								return
+							}
+						}
+						if !two && !late && si == 1 && !unordered {
+							// re-open in the instant of end-of-stream, under every schedule with one deviation
+							sp := *spec
+							sp.ReopenAtEOF, sp.Cycles = true, 3
+							j.Explore(fmt.Sprintf("R/%s/m%d/reopen-at-eof", mode.Name, len(sizes)), resetScenario(&sp), Budget{K: 0, D: 1}, nil)
 							if j.capped() {
 								return
 							}
